@@ -201,9 +201,12 @@ def gen_history(rng, tier, maxdocs=None, ntx=None):
         if i > 0 and cands and rng.random() < 0.6:
             for key in rng.sample(cands, min(len(cands), rng.choice([1, 1, 2, 4]))):
                 body.append(("update", gen_doc(rng, key, o, stored_only_ok=False)))
+        only_stored = rng.random() < 0.06       # a transaction whose sub-writers never see an indexed term
         for _ in range(rng.randint(0 if (ops or body) else 1, maxadd)):
-            kind = "update" if rng.random() < 0.15 else "add"   # update of a fresh key == add
+            kind = "update" if rng.random() < 0.15 and not only_stored else "add"   # update of a fresh key == add
             d = gen_doc(rng, nextkey, o, stored_only_ok=(kind == "add"))
+            if only_stored:
+                d = {"key": "s%d" % nextkey, "s": {"x": rng.randint(0, 9), "y": [1, u"\xe9"]}}
             nextkey += 1
             body.append((kind, d))
         rng.shuffle(body)
@@ -271,7 +274,7 @@ class IxProxy(object):
         return getattr(self._ix, name)
 
 
-def join_or_die(th, what, seconds=30):
+def join_or_die(th, what, seconds=60):
     th.join(seconds)
     if th.is_alive():
         raise Hang(what)
@@ -279,6 +282,35 @@ def join_or_die(th, what, seconds=30):
 
 class Hang(Exception):
     pass
+
+
+_thread_errors = []
+
+
+def _install_thread_hook():
+    """Exceptions that end a thread (AsyncWriter replay, flush timer) are otherwise only printed."""
+    if getattr(threading, "_c18_hook", False):
+        return
+
+    def hook(args):
+        _thread_errors.append((args.thread, args.exc_value))
+    threading.excepthook = hook
+    threading._c18_hook = True
+
+
+def reraise_thread_error(th):
+    for i, (t, e) in enumerate(_thread_errors):
+        if t is th:
+            del _thread_errors[i]
+            raise e
+
+
+def reraise_timer_error():
+    """An exception that ended a BufferedWriter flush-timer thread."""
+    for i, (t, e) in enumerate(_thread_errors):
+        if isinstance(t, threading.Timer):
+            del _thread_errors[i]
+            raise e
 
 
 def safe_close(bw):
@@ -307,32 +339,44 @@ def run_async_tx(ix, wa, prev_tx, tx, plan, stats):
         aw.commit(**tx["commit"])
         if aw.is_alive() or aw.running:
             join_or_die(aw, "AsyncWriter thread (free lock)")
+            reraise_thread_error(aw)
         stats.append(("free", 0, "-"))
         return
     blocker = ix.writer(**wa)
     px = IxProxy(ix)
     aw = writing.AsyncWriter(px, delay=plan["delay"], writerargs=dict(wa))
+    aw.daemon = True            # a retry loop that can never succeed must not keep the worker process alive
     if aw.writer is not None:
         raise AssertionError("AsyncWriter obtained a writer although the lock is held")
-    # interleave the blocker's own work and the buffered calls
-    if prev_tx is not None:
-        apply_ops(blocker, prev_tx["ops"])
-    apply_ops(aw, tx["ops"])
-    if plan["release"] == "before_commit":
+    try:
+        # interleave the blocker's own work and the buffered calls
         if prev_tx is not None:
-            blocker.commit(**prev_tx["commit"])
+            apply_ops(blocker, prev_tx["ops"])
+        apply_ops(aw, tx["ops"])
+        if plan["release"] == "before_commit":
+            if prev_tx is not None:
+                blocker.commit(**prev_tx["commit"])
+            else:
+                blocker.cancel()
+            aw.commit(**tx["commit"])
         else:
-            blocker.cancel()
-        aw.commit(**tx["commit"])
-    else:
-        aw.commit(**tx["commit"])
-        if plan["sleep"]:
-            time.sleep(plan["sleep"])
-        if prev_tx is not None:
-            blocker.commit(**prev_tx["commit"])
-        else:
-            blocker.cancel()
+            aw.commit(**tx["commit"])
+            if plan["sleep"]:
+                time.sleep(plan["sleep"])
+            if prev_tx is not None:
+                blocker.commit(**prev_tx["commit"])
+            else:
+                blocker.cancel()
+    except BaseException:
+        # the lock holder failed: release the lock so that the retry thread can end, then report the failure
+        try:
+            if blocker.writelock is not None and not blocker.is_closed:
+                blocker.writelock.release()
+        except Exception:  # noqa
+            pass
+        raise
     join_or_die(aw, "AsyncWriter thread")
+    reraise_thread_error(aw)
     failed = sum(1 for main, r in px.attempts if r == "locked" and not main)
     stats.append(("blocked", failed, plan["release"]))
 
@@ -395,6 +439,7 @@ def run_history_inproc(st, h, cfg, rng, info):
         if bw is not None:
             bw.close()
             bw = None
+            reraise_timer_error()
         if toram_at == len(txs):
             st = copy_to_ram(st)
     finally:
@@ -679,7 +724,7 @@ def run_config(ctx, rng, h, cfg, probes, with_stats, idx, info):
             try:
                 ok, st = ctx.guard("c18.exec", w, run_history_inproc, st0, h, cfg, rng, info)
             except Hang as e:
-                ctx.fail("c18.exec", "hang:%s:%s" % (cfg_name(cfg), e), w, "thread did not finish within 30 s after the lock was released")
+                ctx.fail("c18.exec", "hang:%s:%s" % (cfg_name(cfg), e), w, "thread did not finish within 60 s after the lock was released")
                 ok = False
             if not ok:
                 # make the mechanism key say which configuration raised
@@ -1038,7 +1083,7 @@ def case_bw_threads(ctx, idx, rng):
             th.start()
         hung = False
         for th in ths:
-            th.join(30)
+            th.join(60)
             hung = hung or th.is_alive()
         sys.setswitchinterval(old_si)
         ctx.count("c18.bw.thread_runs")
@@ -1056,7 +1101,7 @@ def case_bw_threads(ctx, idx, rng):
         if overlapped:
             ctx.count("c18.bw.commit_overlapped_add")
         if hung:
-            ctx.fail("c18.bw.threads", "hang", dict(w, order=order), "a thread sharing the BufferedWriter did not finish in 30 s")
+            ctx.fail("c18.bw.threads", "hang", dict(w, order=order), "a thread sharing the BufferedWriter did not finish in 60 s")
         elif errors:
             e = errors[0]
             from vf import core
@@ -1113,7 +1158,7 @@ def case_bw_timer(ctx, idx, rng):
                 time.sleep(rng.choice([0.001, 0.004, 0.01]))
             # wait (bounded) until a timer flush is visible to a fresh reader
             seen = False
-            t_wait = time.time() + 5
+            t_wait = time.time() + 20
             while time.time() < t_wait and not seen:
                 fx = reopen(st, cfg)
                 try:
@@ -1125,11 +1170,13 @@ def case_bw_timer(ctx, idx, rng):
             if seen:
                 ctx.count("c18.bw.timer_flush_observed")
             else:
-                ctx.fail("c18.bw.timer", "no-flush", w, "no timer flush became visible within 5 s (period %.2f s)" % period)
+                ctx.fail("c18.bw.timer", "no-flush", w, "no timer flush became visible within 20 s (period %.2f s)" % period)
             ok, fine = ctx.guard("c18.bw.exec", w, bw_view_check, ctx, w, bw, live, rng, ("after-timer", 0), False)
             if ok and fine:
                 ok, _ = ctx.guard("c18.bw.exec", w, bw.close)
                 closed = True
+                if ok:
+                    ok, _ = ctx.guard("c18.bw.timer", w, reraise_timer_error)
                 if ok:
                     bw_after_close(ctx, w, st, cfg, live, opts, "timer")
                     time.sleep(0.01)
@@ -1151,6 +1198,7 @@ def case_bw_timer(ctx, idx, rng):
 def run(ctx):
     from vf import model
     model.check_analysis()
+    _install_thread_hook()
     for idx in ctx.cases(quick=60, thorough=300):
         rng = ctx.rng(idx)
         ctx.reseed_global(idx)
